@@ -90,6 +90,17 @@ void entity_iter_protocol(const std::string &name, Rng range, VIt viter, const s
     if (back != rev) VIOL(vs, "c05:entities-backward:" + name, name << " backward from end visits " << vstr(back) << " expected " << vstr(rev));
     --e;
     if (e.valid()) VIOL(vs, "c05:entities-backward-past-begin:" + name, name << " still valid before the first element");
+    // the end iterator is not valid() and stepping back does not make it so, hence the same walk again from a VALID iterator (begin
+    // advanced to the last live entity): it must visit the reversed sequence and then become invalid - in particular it must not stop
+    // on a deferred-deleted entity at the front of the array
+    {
+        auto w = range.first;
+        for (size_t k = 1; k < live.size(); ++k) ++w;
+        std::vector<int> back2;
+        size_t guard = 0;
+        while (w.valid() && guard++ < live.size() + 4) { back2.push_back((*w).idx()); --w; }
+        if (back2 != rev) VIOL(vs, "c05:entities-backward-valid:" + name, name << " backward from the last live entity (valid() loop) visits " << vstr(back2) << " expected " << vstr(rev));
+    }
     // --(++it) restores the handle at every position
     size_t k = 0;
     for (auto it = range.first; it != range.second; ++it, ++k) {
